@@ -43,7 +43,7 @@ fn valid_offset(rng: &mut Rng) -> (u64, u64) {
 }
 
 pub fn run(args: &Args) -> Report {
-    let total = args.n(20_000, 600_000);
+    let total = args.n(20_000, 2_000_000);
     let plats = args.platforms_or(&[P::Native, P::Portable]);
     run::run_cases(args, 10, total, |idx, rng, rep| {
         let p = plats[(idx % plats.len() as u64) as usize];
